@@ -83,13 +83,26 @@ def _align(rc: RuleCtx, mf: rm.LoopModel, mg: rm.LoopModel, oname: str):
     af, ag = mf.appends(mf.retained), mg.appends(mg.retained)
     if [(e.guard.key, vkey(e.args[0])) for e in af] != [(e.guard.key, vkey(e.args[0])) for e in ag]:
         problems.append(("retained index", str([_short(e.args[0], 80) for e in ag]), str([_short(e.args[0], 80) for e in af])))
-    sf = [ast.dump(e.node) for e in mf.events if e.kind == "sort" and e.target == mf.stack]
-    sg = [ast.dump(e.node) for e in mg.events if e.kind == "sort" and e.target == mg.stack]
+    def sort_sig(call):
+        key, rev = None, False
+        for kw in call.keywords:
+            if kw.arg == "key":
+                lam = kw.value
+                key = ast.dump(lam.body) if isinstance(lam, ast.Lambda) else ast.dump(lam)
+                if isinstance(lam, ast.Lambda) and len(lam.args.args) == 1:
+                    # alpha-normalise the lambda parameter
+                    key = key.replace(repr(lam.args.args[0].arg), "'_'")
+            elif kw.arg == "reverse":
+                rev = ast.unparse(kw.value)
+                rev = {"False": False, "True": True}.get(rev, rev)
+        return (key, rev)
+    sf = [sort_sig(e.node) for e in mf.events if e.kind == "sort" and e.target == mf.stack]
+    sg = [sort_sig(e.node) for e in mg.events if e.kind == "sort" and e.target == mg.stack]
     if sf != sg or not sf:
         problems.append(("priority sort of the work stack", str(len(sg)), str(len(sf))))
     # pops
-    pf = [ast.dump(e.node) for e in mf.events if e.kind == "pop"]
-    pg = [ast.dump(e.node) for e in mg.events if e.kind == "pop"]
+    pf = [[ast.unparse(a) for a in e.node.args] for e in mf.events if e.kind == "pop"]
+    pg = [[ast.unparse(a) for a in e.node.args] for e in mg.events if e.kind == "pop"]
     if pf != pg:
         problems.append(("pop", str(pg), str(pf)))
     # nothing else may differ except the declared set
